@@ -190,7 +190,8 @@ Section Conform.
     all: try solve [ first [ apply (dec_str_conf (SList t') _ _ H) | apply (dec_str_conf (SSet fr' t') _ _ H)
                            | apply (dec_str_conf (STupleVar t') _ _ H) | apply (dec_str_conf (STupleFix ts) _ _ H) ] ].
     (* fixed tuple / dataclass given a non-sequence / non-mapping *)
-    all: try solve [ destruct ts; [inversion H; reflexivity | discriminate H] ].
+    all: try solve [ destruct (none_tail_t ts) as [r0|] eqn:En; [|discriminate H]; cbn [bind] in H; inversion H;
+                     rewrite conf_unfold; apply (none_tail_conf ts r0 En) ].
     all: try solve [ destruct (sfind E c') as [k0|] eqn:Ef; [|discriminate H];
                      first [ apply (dec_str_conf (SData c') _ _ H) | discriminate H ] ].
     (* homogeneous containers over list-like inputs *)
